@@ -159,6 +159,11 @@ def threads_set(tier):
             p = fp.build(mac, ds, init_ev=True, flavour="Opt" if mac.startswith("try") else None)
             out.append(tprog("%s/%s" % (mac, fp.pname(ds)), p, ds, callers=callers_long if (len(ds) == 2 or tier != "quick") else callers, check_threads=True))
             if len(ds) in (2, 3) and (tier != "quick" or max(ds) <= 2):
+                # step 0 = initial value + an instant operator with a block operand: the initial value is still evaluated by the
+                # branch's thread
+                p = fp.build(mac, ds, init_ev=True, cap0=True, flavour="Opt" if mac.startswith("try") else None)
+                out.append(tprog("%s/%s/cap0" % (mac, fp.pname(ds)), p, ds, callers=("main",), check_threads=True))
+            if len(ds) in (2, 3) and (tier != "quick" or max(ds) <= 2):
                 # initial values written as if / match / unsafe / loop expressions (one form per branch): evaluated by the branch's thread
                 p = fp.build(mac, ds, init_ev=True, init_form=("if", "match", "unsafe", "loop")[len(ds) % 2:][:3], flavour="Opt" if mac.startswith("try") else None)
                 out.append(tprog("%s/%s/initforms" % (mac, fp.pname(ds)), p, ds, callers=("main",), check_threads=True))
